@@ -110,7 +110,7 @@ class SnapshotActionContext(FrameCollectorContext, ActionContext):
     def _process_action(self):
         collector = FrameCollector(self, self.trigger_context.frame)
 
-        frames, variables = collector.collect(self.trigger_context.vars, self.trigger_context.var_cache)
+        frames, variables = collector.collect({}, self.var_cache)
 
         snapshot = EventSnapshot(self.location_action.tracepoint, self.trigger_context.ts,
                                  self.trigger_context.resource, frames, variables)
